@@ -30,7 +30,7 @@ MIN_NONTRIVIAL = {"quick": 2000, "thorough": 20000}
 REQUIRED_FUNCTIONS = ["listener.py:parse", "listener.py:BlackbirdListener.enterProgram", "listener.py:BlackbirdListener.exitProgram", "__init__.py:load", "__init__.py:loads"]
 FUNCTIONS = REQUIRED_FUNCTIONS
 REQUIRED_HOOKS = ["parse-entry"]
-REQUIRED_TAGS = ["after:syntax-failure", "after:undefined-name-failure", "after:type-failure", "after:loop-failure", "after:include-failure",
+REQUIRED_TAGS = ["after:syntax-failure", "after:undefined-name-failure", "after:type-failure", "after:loop-failure", "after:include-failure", "after:other-failure",
                  "after:success", "probe", "kind:template", "kind:tdm", "kind:include"]
 ASSUMPTIONS = ["a forked child of a process that imported blackbird and loaded nothing is a pristine process (same hash seed)",
                "exception messages are compared after normalising the display order of set literals"]
@@ -52,6 +52,10 @@ STATIC = [
     ("fail-loop", H % "f8" + "int r = 3\nfor int m in [0, 1]\n    G | m\n    H | m/1\n"),
     ("fail-template", H % "f9" + "G({r}, {alpha}) | 0\nfloat array A =\n    {p0}, 2\nH(nope) | 1\n"),
     ("fail-tdm", H % "f10" + "type tdm (temporal_modes=2)\nfloat array p0 =\n    1, 2\nG(p0) | 0\nH(missing) | 1\n"),
+    ("fail-other", H % "f11" + "float alpha = 0.3\nint m = 5\nfloat array A =\n    1, 2\nG(A[5]) | 0\n"),
+    ("fail-other", H % "f12" + "float alpha = 1\nstr r = \"s\"\nG(alpha[0]) | 0\n"),
+    ("fail-other", H % "f13" + "int m = 3\nfloat array A =\n    1, 2\nfor int r in 0:5\n    G(A[r]) | r\n"),
+    ("fail-other", H % "f14" + "float array p0 =\n    1, 2\nfloat alpha = 2\nfloat array A[2] =\n    {A}\n"),
     ("probe", H % "p1" + "target dev (shots=alpha)\nG | 0\n"),
     ("probe", H % "p2" + "target dev (x=m, y=2)\nG | 0\n"),
     ("probe", H % "p3" + "type custom (k=A)\nG | 0\n"),
@@ -159,6 +163,20 @@ def build_pool(ctx, g, root):
     for rel, text in files.items():
         with open(os.path.join(inc, rel), "w") as f:
             f.write(text)
+    # a two-level include chain whose inner file is rewritten between loads (two states A/B)
+    chain = os.path.join(root, "chain")
+    os.makedirs(chain, exist_ok=True)
+    with open(os.path.join(chain, "main.xbb"), "w") as f:
+        f.write(H % "cm" + "include \"outer.xbb\"\n\nOuter | [1, 2]\nVac | 0\n")
+    with open(os.path.join(chain, "main2.xbb"), "w") as f:
+        f.write(H % "cm2" + "include \"outer.xbb\"\ninclude \"inner.xbb\"\n\nInner | 4\nOuter | [3, 5]\n")
+    with open(os.path.join(chain, "outer.xbb"), "w") as f:
+        f.write(H % "Outer" + "include \"inner.xbb\"\n\nBSgate | [0, 1]\nInner | 1\n")
+    INNER = {"A": H % "Inner" + "Sgate(0.50) | 7\n", "B": H % "Inner" + "Sgate(0.75) | 7\nRgate(0.125) | 7\n"}
+    ctx.extra["_inner_states"] = INNER
+    ctx.extra["_inner_path"] = os.path.join(chain, "inner.xbb")
+    for rel in ("main.xbb", "main2.xbb"):
+        pool.append({"kind": "file", "payload": os.path.join(chain, rel), "cls": "include", "depends_on_inner": True})
     for rel, cls in (("ok.xbb", "include"), ("f_inc.xbb", "fail-include"), ("f_inc2.xbb", "fail-include"), ("f_missing.xbb", "fail-include"),
                      ("f_call.xbb", "fail-include"), ("f_call2.xbb", "fail-include"), ("probe_inc.xbb", "probe")):
         pool.append({"kind": "file", "payload": os.path.join(inc, rel), "cls": cls})
@@ -192,7 +210,7 @@ def build_pool(ctx, g, root):
 
 
 AFTER = {"fail-syntax": "after:syntax-failure", "fail-undefined": "after:undefined-name-failure", "fail-type": "after:type-failure", "fail-loop": "after:loop-failure",
-         "fail-include": "after:include-failure", "fail-template": "after:undefined-name-failure", "fail-tdm": "after:undefined-name-failure"}
+         "fail-include": "after:include-failure", "fail-other": "after:other-failure", "fail-template": "after:undefined-name-failure", "fail-tdm": "after:undefined-name-failure"}
 
 
 def run(ctx):
@@ -205,9 +223,25 @@ def run(ctx):
         # pristine outcomes first: this process has loaded nothing yet
         if Probe.entries:
             raise RuntimeError("worker loaded a script before computing pristine outcomes")
+        inner_states = ctx.extra.pop("_inner_states")
+        inner_path = ctx.extra.pop("_inner_path")
+
+        def set_inner(state):
+            with open(inner_path, "w") as f:
+                f.write(inner_states[state])
+
         for m in pool:
-            m["pristine"] = pristine(m["kind"], m["payload"])
+            if m.get("depends_on_inner"):
+                m["pristine_by_state"] = {}
+                for st in ("A", "B"):
+                    set_inner(st)
+                    m["pristine_by_state"][st] = pristine(m["kind"], m["payload"])
+                m["pristine"] = m["pristine_by_state"]["A"]
+            else:
+                m["pristine"] = pristine(m["kind"], m["payload"])
             ctx.observe("pristine outcome: " + (m["pristine"][0] if m["pristine"][0] == "ok" else m["pristine"][1]))
+        inner_state = "A"
+        set_inner("A")
         undo = install_hook()
         nh = ctx.share(BUDGET[ctx.tier])
         polluted_entries = 0
@@ -228,6 +262,12 @@ def run(ctx):
             hist = []
             for m in seq:
                 del Probe.entries[:]
+                if m.get("depends_on_inner"):
+                    if rng.random() < 0.5:
+                        inner_state = "B" if inner_state == "A" else "A"
+                        set_inner(inner_state)
+                        ctx.observe("included file rewritten between loads")
+                    m = dict(m, pristine=m["pristine_by_state"][inner_state])
                 o, p = outcome(m["kind"], m["payload"])
                 ctx.hook("parse-entry", len(Probe.entries))
                 if Probe.entries and (Probe.entries[0][0] or Probe.entries[0][1]):
